@@ -835,10 +835,52 @@ def c07_tie(case, impl):
 
 # --------------------------------------------------------------------------- C20 (how the tool calls the string helpers)
 
+_ALIAS_SAFE = {}
+
+
+def _alias_safe(proc):
+    """does the library procedure, as shipped now, compute its function when its result cell IS the argument cell (BASIC09
+    passes variables by reference)?  Run with the by-reference interpreter of the harness on a small grid; None = compared
+    and equal, else the first difference"""
+    if proc in _ALIAS_SAFE:
+        return _ALIAS_SAFE[proc]
+    import os
+    import b09lib
+    from common import REPO
+    lib = b09lib.Lib(open(os.path.join(REPO, "coco", "resources", "ecb.b09"), newline="").read())
+    bad = None
+    try:
+        if proc == "ecb_instr":
+            for start in (1, 2, 3):
+                for subj in ("XYX", "ABAB"):
+                    for pat in ("Y", "AB", "Q"):
+                        k = subj.find(pat, start - 1)
+                        want = "ok " + repr([float(k + 1) if k >= 0 else 0.0])
+                        got = b09lib.run_once(lib, proc, [float(start), subj, pat, float(start)], [3], (0, 3))
+                        if bad is None and _num_repr(got) != _num_repr(want):
+                            bad = f"INSTR({start},{subj!r},{pat!r}) with one cell as index and result gives {got}, not {want}"
+        else:
+            for n in (0, 1, 2, 3):
+                for arg in ("X", "AB"):
+                    want = "ok " + repr([arg[0] * n])
+                    got = b09lib.run_once(lib, proc, [float(n), arg, arg], [2], (1, 2))
+                    if bad is None and got != want:
+                        bad = f"STRING$({n},{arg!r}) with one cell as string and result gives {got}, not {want}"
+    except b09lib.Unsupported as e:
+        bad = f"{proc} is outside the interpreter's subset ({e})"
+    _ALIAS_SAFE[proc] = bad
+    return bad
+
+
+def _num_repr(ans):
+    m = re.match(r"ok \[(-?[0-9.]+)\]$", ans)
+    return float(m.group(1)) if m else ans
+
+
 def c20_alias(case, impl):
-    """BASIC09 passes variables by reference, and ecb_instr / ecb_string clear their result before they read their
-    arguments: the helper computes the Color BASIC function only if its result cell is not also the argument it reads
-    afterwards (the start index of INSTR, the string of STRING$)"""
+    """BASIC09 passes variables by reference: where the tool passes ONE variable as the result cell of ecb_instr / ecb_string
+    and as the argument (the start index of INSTR, the string of STRING$), the helper computes the Color BASIC function only
+    if it reads the argument before it clears the result - judged by running the shipped procedure with aliased cells"""
     out = out_text(impl)
     if out is None:
         return None
@@ -846,12 +888,12 @@ def c20_alias(case, impl):
         for callee, args, _ in T.run_calls(T.code_tokens(line)):
             if callee.lower() == "ecb_instr" and args and len(args) == 4:
                 a, r = "".join(t for _, t in args[0]), "".join(t for _, t in args[3])
-                if a == r:
-                    return f"ecb_instr gets {r} as start index and as result: the result is cleared before the index is read | {line.strip()[:100]}"
+                if a == r and _alias_safe("ecb_instr"):
+                    return f"ecb_instr gets {r} as start index and as result: {_alias_safe('ecb_instr')} | {line.strip()[:100]}"
             if callee.lower() == "ecb_string" and args and len(args) == 3:
                 a, r = "".join(t for _, t in args[1]), "".join(t for _, t in args[2])
-                if a == r:
-                    return f"ecb_string gets {r} as its string and as result: the result is cleared before the string is read | {line.strip()[:100]}"
+                if a == r and _alias_safe("ecb_string"):
+                    return f"ecb_string gets {r} as its string and as result: {_alias_safe('ecb_string')} | {line.strip()[:100]}"
     return None
 
 
